@@ -79,7 +79,9 @@ func init() {
 		hdr := fmt.Sprintf("query: %s\nconstruct=%s position=%s window: start=%d end=%d step=%d\n", c.Query, c.Note, c.Mode, c.Start, c.End, c.Step)
 		tol := oracle.DefaultTol(Scale(c.Series))
 
-		refQ, rerr := Create(NewRef(c.Lookback), st.Session(), qo, c.Query, c.Start, c.End, c.Step)
+		refSess := st.Session()
+		refSess.Shuffle = c.Shuffle // same storage order as the engine under test (ties in topk depend on it)
+		refQ, rerr := Create(NewRef(c.Lookback), refSess, qo, c.Query, c.Start, c.End, c.Step)
 		var refRes *oracle.Res
 		if rerr == nil {
 			refRes = Exec(ctx, refQ)
@@ -119,7 +121,7 @@ func init() {
 		if known != "" {
 			feats = append(feats, "equality-not-judged:"+known)
 		} else if d := oracle.Equal(resOn, refRes, tol); d != "" {
-			if !(path == "native" && (hasFeat(feats, "agg:topk") || hasFeat(feats, "agg:bottomk")) && TopkAmbiguous(c, expr, st)) {
+			if !((hasFeat(feats, "agg:topk") || hasFeat(feats, "agg:bottomk")) && resOn.Err == nil && refRes.Err == nil && TopkAmbiguous(c, expr, st)) {
 				return violation("%swith fallback enabled (path %s) the answer differs from the reference: %s\nengine:    %s\nreference: %s\n", hdr, path, d, resOn, refRes)
 			}
 		}
